@@ -236,6 +236,8 @@ Proof.
   cbn [app] in G, P. rewrite app_nil_r in G, P. rewrite <- E in G, P.
   unfold parse_int. rewrite G, P. cbn. unfold ctor_int. rewrite Hv, Hr. reflexivity.
 Qed.
+Lemma int_roundtrip_T T z : int_space T z = true -> parse_int (sdk_range T) (print_int z) = Ok z.
+Proof. intros H. apply int_roundtrip. rewrite sdk_range_space. exact H. Qed.
 Lemma int_print_valid T z : int_space T z = true -> valid_xsd_int T (print_int z) = true.
 Proof.
   intros Hr. unfold print_int. destruct (str_int_shape z) as (sg & k & ds & E & Hsg & Hne & Hd & Hv).
